@@ -61,7 +61,11 @@ func (w *worker) runSmart() {
 		baseline := goroutineBaseline()
 		idx := &fakeIndex{size: uint64(w.c.FileMB) << 20}
 		det := rebalancing.NewWorkloadDetector(rebalancing.WithMinSampleSize(5), rebalancing.WithWindowSize(time.Minute))
-		sr := rebalancing.NewSmartRebalancer(idx, rebalancing.WithDetector(det), rebalancing.WithReevalInterval(iv))
+		cons := rebalancing.DefaultSafetyConstraints()
+		cons.MinConfidence = float64(w.c.MinConf) / 100
+		cons.MinStabilityPeriod = time.Duration(w.c.StableUS) * time.Microsecond
+		sel := rebalancing.NewConfigSelector(rebalancing.WithSafetyConstraints(cons))
+		sr := rebalancing.NewSmartRebalancer(idx, rebalancing.WithDetector(det), rebalancing.WithSelector(sel), rebalancing.WithReevalInterval(iv))
 		var recs, evals, starts atomic.Int64
 		ctx, cancel := context.WithCancel(context.Background())
 		bodies := make([]func(), n)
@@ -71,7 +75,7 @@ func (w *worker) runSmart() {
 			bodies[i] = func() {
 				for l := 0; l < loops; l++ {
 					for _, op := range th.Ops {
-						w.do(i, op.K, op.K == "stop", func() string {
+						r := w.do(i, op.K, op.K == "stop", func() string {
 							switch op.K {
 							case "start":
 								if sr.Start(ctx) == nil {
@@ -105,6 +109,7 @@ func (w *worker) runSmart() {
 							}
 							return ""
 						})
+						w.vet(i, r, true, nil, 0)
 						pause(op.P)
 					}
 				}
@@ -113,7 +118,7 @@ func (w *worker) runSmart() {
 		w.runThreads(bodies)
 		// every start is matched by a stop that returns
 		w.tr.phase.Store("final")
-		w.do(n, "final-stop", true, func() string { _ = sr.Stop(); return "" })
+		w.vet(n, w.do(n, "final-stop", true, func() string { _ = sr.Stop(); return "" }), true, nil, 0)
 		cancel()
 		if w.tr.windowsOverlap(n) {
 			w.mu.Lock()
